@@ -64,7 +64,28 @@ fn alphabet() -> Vec<Vec<u8>>
 	a.push("😀".as_bytes().to_vec());         // 4-byte character
 	a.push(vec![0xFF]);
 	a.push(vec![0xED, 0xA0, 0x80]);            // UTF-8-encoded surrogate (invalid)
+	a.push(vec![0xEF, 0xBB, 0xBF]);            // byte order mark (a valid character that starts no token)
 	a
+}
+
+/// every string of <= `maxlen` symbols over the comment alphabet: the block / line comment scanners (nesting, the
+/// `/*/` and `*/*` overlaps, a comment reaching the end of the input) decide on exactly these bytes
+fn comment_exhaustive(maxlen: usize, emit: &mut dyn FnMut(String))
+{
+	let a: [&[u8]; 6] = [b"/", b"*", b"x", b" ", b"\n", b";"];
+	for len in 0..=maxlen
+	{
+		let mut idx = vec![0usize; len];
+		loop
+		{
+			let mut bytes = Vec::new();
+			for &i in &idx { bytes.extend_from_slice(a[i]); }
+			emit(format!("T {}", hex_bytes(&bytes)));
+			let mut k = len;
+			loop { if k == 0 { break; } k -= 1; idx[k] += 1; if idx[k] < a.len() { k = usize::MAX; break; } idx[k] = 0; }
+			if k != usize::MAX { break; }
+		}
+	}
 }
 
 fn exhaustive(maxlen: usize, emit: &mut dyn FnMut(String))
@@ -559,7 +580,7 @@ fn main()
 		let mut rng = Rng::new(seed.wrapping_mul(0x100).wrapping_add(s.len() as u64 + s.as_bytes()[0] as u64));
 		match s
 		{
-			"exh" => { exhaustive(if thorough { 5 } else { 4 }, &mut emit); utf8_grid(&mut emit); },
+			"exh" => { exhaustive(if thorough { 5 } else { 4 }, &mut emit); comment_exhaustive(if thorough { 9 } else { 8 }, &mut emit); utf8_grid(&mut emit); },
 			"lit" => { literal_ints(&mut emit); literal_chars(&mut emit); literal_strings(thorough, &mut rng, &mut emit); },
 			"pos" => position_stream(thorough, &mut rng, &mut emit),
 			"rand" => random_stream(thorough, &mut rng, &mut emit),
